@@ -6,7 +6,7 @@ R02d constraint-name agreement across declaration sites
 import ast
 from typing import Dict, List, Optional, Set, Tuple
 
-from ..cfg import analysis, FuncAnalysis, Node, N, E, decompose, handler_type_names
+from ..cfg import target_names, analysis, FuncAnalysis, Node, N, E, decompose, handler_type_names
 from ..lib import prov, exception_family
 from ..model import AnalysisError, FuncInfo, call_attr, call_name, kwarg, unparse, walk_shallow, norm_stmt, names_in
 
@@ -390,8 +390,55 @@ def r02_contains(run):
               construct="contains counting", message="_parse_contains does not count +1 exactly on successful conversions")
 
 
+def r02e(run, C):
+    """which validator (strict or lax_) runs for a constraint depends on that constraint's own declaration only:
+    inside the loops of generate_validators no value is carried over from a previous constraint"""
+    f = C.methods.get("generate_validators")
+    if f is None:
+        raise AnalysisError("Constraints.generate_validators not found")
+    fa = analysis(f)
+    loops = [n for n in fa.cfg.nodes if n.kind == "iter"]
+    run.floor("R02e", "loops in generate_validators", len(loops), 2)
+    checked = 0
+    for lp in loops:
+        body_entry = [s_ for s_, k in lp.succ if s_.kind == "branch" and s_.polarity]
+        if not body_entry:
+            continue
+        body = fa.cfg.reach_from_succ(body_entry[0], kinds=(N, E), avoid=[lp]) | {body_entry[0]}
+        targets = set(target_names(lp.stmt.target))
+        for n in body:
+            if n.ast is None or n.kind not in ("stmt", "test"):
+                continue
+            reads = set()
+            for e in fa.node_exprs(n):
+                for x in walk_shallow(e):
+                    if isinstance(x, ast.Name) and isinstance(x.ctx, ast.Load) and x.id in fa.rd.locals and x.id not in targets:
+                        reads.add(x.id)
+            for v in reads:
+                defs = fa.rd.defs_of(n, v)
+                inside = [d for d in defs if d in body and d.kind == "stmt" and isinstance(d.ast, ast.Assign)
+                          and not isinstance(d.ast.targets[0], ast.Subscript)]
+                if not inside:
+                    continue       # loop-invariant, or a container that is only extended
+                checked += 1
+                # every in-loop definition that reaches the read must dominate it (made in this iteration)
+                # some path from the start of the iteration to the read passes none of the in-loop definitions
+                reach = fa.cfg.reach_from_succ(body_entry[0], kinds=(N, E), avoid=inside + [lp]) | {body_entry[0]}
+                carried = n in reach and n not in inside
+                run.check("R02e", f, f"`{v}` read by `{norm_stmt(n.stmt if n.stmt is not None else n.ast)[:40]}` is defined in "
+                                     f"the same iteration", not carried,
+                          construct=f"`{v}` carried over between constraints",
+                          message=f"generate_validators: `{v}` is assigned inside the loop only on some paths and read by "
+                                  f"`{norm_stmt(n.stmt if n.stmt is not None else n.ast)[:60]}`: the value of an earlier "
+                                  f"constraint (or the pre-loop initial value) reaches later ones",
+                          necessity="after one Lax(...) constraint every later constraint is bound to its lax_ variant: "
+                                    "ge=Lax(0), le=100 accepts 150 (clamped to 100) and isinstance agrees with the wrong verdict",
+                          node=n.ast)
+    run.notes.append(f"R02e: {checked} reads of loop-defined locals checked")
+
+
 def check(run):
-    run.rules_run += ["R02a", "R02b", "R02c", "R02d"]
+    run.rules_run += ["R02a", "R02b", "R02c", "R02d", "R02e"]
     run.explain("C02: the strict validators are the Constraints methods named in Rule.__constraints__. (R02a) the reject "
                 "condition of each validator, collected from the branch facts of its raise statements and normalised "
                 "(not a<=b == a>b, operands swapped so that the bound is on the right, len(str(value)) == len), equals the "
@@ -407,3 +454,4 @@ def check(run):
     r02b(run, C, names)
     r02c(run)
     r02d(run, C, names)
+    r02e(run, C)
